@@ -181,7 +181,7 @@ def main(argv=None):
                 continue
             seen.add(v.key)
             n += 1
-            if n > 20:
+            if n > 100:
                 break
             safe = ''.join(c if c.isalnum() or c in '-_.' else '_'
                            for c in v.key)[:80]
